@@ -34,6 +34,9 @@ type c12Fx struct {
 	qt     uint16
 	scomm  *vServerComm
 	lst    *ServerDnsListener
+	// real != nil: the listener is registered on the repository's own NetConnectionServerCommunicator and every message
+	// (the sessions' own traffic included) enters through its handleRequest (zz_verif_c12_handler_test.go)
+	real *NetConnectionServerCommunicator
 
 	sClient *ClientDnsConnection
 	sComm   *vClientComm
@@ -89,9 +92,20 @@ func c12NewClient(domain string, comm *vClientComm, qt uint16) (*ClientDnsConnec
 
 // c12NewFx builds listener + S + H. Everything is deterministic; no poller goroutine exists.
 func c12NewFx(domain string, qt uint16, seed int64) (*c12Fx, error) {
+	return c12NewFxVia(domain, qt, seed, false)
+}
+
+func c12NewFxVia(domain string, qt uint16, seed int64, viaHandleRequest bool) (*c12Fx, error) {
 	fx := &c12Fx{domain: domain, qt: qt, hId: -1, stop: make(chan struct{})}
 	fx.scomm = &vServerComm{}
-	fx.lst = NewServerDnsListener(domain, fx.scomm)
+	if viaHandleRequest {
+		// what NewNetConnectionServerCommunicator builds, without the socket and without the global handler registration
+		fx.real = &NetConnectionServerCommunicator{server: &mdns.Server{PacketConn: c12NoConn{}}}
+		fx.lst = NewServerDnsListener(domain, fx.real)
+		fx.scomm.RegisterAccept(fx.viaHandleRequest)
+	} else {
+		fx.lst = NewServerDnsListener(domain, fx.scomm)
+	}
 	fx.sComm = newVClientComm(fx.scomm, c12AddrS())
 	var err error
 	if fx.sClient, err = c12NewClient(domain, fx.sComm, qt); err != nil {
@@ -136,6 +150,9 @@ func (fx *c12Fx) close() {
 		fx.hComm.Close()
 	}
 	fx.scomm.Close()
+	if fx.real != nil {
+		fx.real.Close()
+	}
 }
 
 // ensureH (re-)establishes the sacrificial session of the hostile address when it is gone.
@@ -398,10 +415,14 @@ type c12Res struct {
 	packErr   string
 	packPanic string
 	answer    *mdns.Msg // the answer as it would arrive (packed and unpacked); nil = nothing is sent
+	writes    int       // via handleRequest: datagrams written
 }
 
 // call hands q to the registered onMessage callback as handleRequest would and measures it.
 func (fx *c12Fx) call(q *mdns.Msg, addr net.Addr) c12Res {
+	if fx.real != nil {
+		return fx.callHandleRequest(q, addr)
+	}
 	h := fx.scomm.handler()
 	ch := make(chan c12Res, 1)
 	go func() {
@@ -425,6 +446,43 @@ func (fx *c12Fx) call(q *mdns.Msg, addr net.Addr) c12Res {
 					r.answer = back
 				}
 			}
+		}
+		ch <- r
+	}()
+	select {
+	case r := <-ch:
+		return r
+	case <-time.After(c12Watchdog):
+		return c12Res{timedOut: true}
+	}
+}
+
+// callHandleRequest hands q to NetConnectionServerCommunicator.handleRequest as miekg's serveDNS would and measures it.
+func (fx *c12Fx) callHandleRequest(q *mdns.Msg, addr net.Addr) c12Res {
+	ch := make(chan c12Res, 1)
+	go func() {
+		var r c12Res
+		w := &c12Writer{remote: addr}
+		var m1, m2 runtime.MemStats
+		runtime.ReadMemStats(&m1)
+		r.panicked, r.site, r.val = vcommon.Guard(func() { fx.real.handleRequest(w, q) })
+		runtime.ReadMemStats(&m2)
+		r.alloc = m2.TotalAlloc - m1.TotalAlloc
+		r.writes = len(w.wires)
+		switch {
+		case r.panicked:
+		case len(w.wires) > 0:
+			r.resp = w.msgs[0]
+			back := new(mdns.Msg)
+			if back.Unpack(w.wires[0]) == nil {
+				r.answer = back
+			}
+		case w.lastErr != nil:
+			// WriteMsg failed (handleRequest logs it): nothing is sent
+			r.resp = new(mdns.Msg)
+			r.packErr = w.lastErr.Error()
+		default:
+			r.err = errC12NothingSent
 		}
 		ch <- r
 	}()
